@@ -83,11 +83,13 @@ ALPHA = 'abcxyzABC019 _-./:=,+%~^*?$&|<>;(){}[]!#\\@é'
 #   arg    ['str', frags, style] | ['sym', name]           style: hard | soft | bare | eol | xfile | xdir | xpath
 #   tr     [[a, b], ...]
 #   src    ['str', frags, style] | ['file', fname, contents] | ['prog', chan, ign, prog] | ['trans', src, tr]
+#          | ['runt', src, ign, prog]
 #   driver ['exe', canonical_path, style] | ['sys', frags, style] | ['shell', frags]
 #   prog   ['cmd', driver, args, stdin, trs] | ['ref', name, args, stdin, trs]       stdin: [src]  trs: [tr]
 #   instr  ['def', name, value] | ['cd', canonical, option, suffix] | ['run', kind, ign, prog] | ['cap', k, src]
 #          | ['stdin', src] | ['exit-code', k] | ['stdout', text] | ['stderr', text]
 #          | ['exit-code-from', prog, k] | ['out-from', chan, prog, text]
+#          | ['out-run', chan, negated, prog] | ['file-run', negated, fname, prog]
 #   act    ['command', prog] | ['file', interp_driver, interp_args, fname, args] | ['source', interp_driver,
 #           interp_args, frags] | ['null']
 # ------------------------------------------------------------------------------------------------
@@ -245,6 +247,14 @@ class Gen:
 
     def src(self, env, depth):
         r = self.rng
+        if depth > 0 and r.chance(0.12):
+            # SRC -transformed-by run PROGRAM
+            base = self.leaf_src(env['data'])
+            if base[0] == 'trans':
+                base = base[1]
+            p = self.use_site(env, depth - 1, code=0 if r.chance(0.8) else r.randint(1, 255))
+            code = self.code_of(p)
+            return ['runt', base, r.chance(0.65) if code != 0 else r.chance(0.2), p]
         if depth > 0 and r.chance(0.35):
             p = self.use_site(env, depth - 1, code=0 if r.chance(0.8) else r.randint(1, 255))
             code = self.code_of(p)
@@ -399,7 +409,7 @@ class Gen:
             defs.append(['def', 'HSCRIPT', ['path', '{HOME}/probe.py', '-rel-home', 'probe.py']])
         return defs
 
-    def chain_defs(self, env, n_links):
+    def chain_defs(self, env, n_links, prefix='P'):
         """a base program definition and n_links definitions each referring to the previous one"""
         r = self.rng
         k = len(env['progs'])
@@ -412,7 +422,7 @@ class Gen:
         else:
             stdin, trs = self.components(env, 1)
             base = ['cmd', drv, fixed + self.args(env['data'], 0, 2), stdin, trs]
-        nm = 'P%d' % k
+        nm = '%s%d' % (prefix, k)
         defs.append(['def', nm, ['program', base]])
         names.append(nm)
         env['progs'].append(nm)
@@ -420,7 +430,7 @@ class Gen:
         if is_shell:
             env['shell'].add(nm)
         for j in range(n_links):
-            nm2 = 'P%d' % (k + j + 1)
+            nm2 = '%s%d' % (prefix, k + j + 1)
             stdin, trs = self.components(env, 1, 0.5, 0.5)
             link = ['ref', names[-1], self.safe_args(0, 2) if is_shell else self.args(env['data'], 0, 2), stdin, trs]
             defs.append(['def', nm2, ['program', link]])
@@ -475,18 +485,69 @@ class Gen:
                 elif k < 7:
                     caps[0] += 1
                     out.append(['cap', caps[0], self.src(env, 2)])
-                elif k < 9:
+                elif k < 8:
                     opt, base, suf = r.choice([['-rel-act', '{SDS}/act', '.'], ['-rel-act', '{SDS}/act', 'd1'],
                                                ['-rel-act', '{SDS}/act', 'd1/d2'], ['-rel-tmp', '{SDS}/tmp', '.']])
                     out.append(['cd', base if suf == '.' else base + '/' + suf, opt, suf])
+                else:
+                    # a definition in the middle of a phase: visible to what is executed after it
+                    late[0] += 1
+                    q = r.below(10)
+                    if q < 3:
+                        nm = 'S9%d' % late[0]
+                        t = self.text().replace('\t', ' ')
+                        st = styles_for([['c', t]]) or None
+                        if st:
+                            out.append(['def', nm, ['string', t, r.choice(st)]])
+                            env['data'].append(nm)
+                            late_names.append((nm, phase))
+                    elif q < 5:
+                        nm = 'L9%d' % late[0]
+                        els = []
+                        for _ in range(r.randint(0, 3)):
+                            t = self.text().replace('\t', ' ')
+                            st = styles_for([['c', t]])
+                            if st:
+                                els.append([t, r.choice(st)])
+                        out.append(['def', nm, ['list', els]])
+                        env['data'].append(nm)
+                        late_names.append((nm, phase))
+                    elif q < 8 and env['progs']:
+                        nm = 'Q%d' % late[0]
+                        target = r.choice(env['progs'])
+                        is_shell = target in env['shell']
+                        stdin, trs = self.components(env, 1, 0.5, 0.5)
+                        link = ['ref', target, self.safe_args(0, 2) if is_shell else self.args(env['data'], 0, 2),
+                                stdin, trs]
+                        out.append(['def', nm, ['program', link]])
+                        env['progs'].append(nm)
+                        if is_shell:
+                            env['shell'].add(nm)
+                        late_names.append((nm, phase))
+                    else:
+                        before_n = len(env['progs'])
+                        ds = self.chain_defs(env, r.weighted([(0, 3), (1, 2)]), prefix='R%d_' % late[0])
+                        out += ds
+                        for nm in env['progs'][before_n:]:
+                            late_names.append((nm, phase))
             return out
+
+        late = [0]
+        late_names = []   # (name, phase it is defined in), for definitions that are not at the start of [setup]
+
+        def hide_for_cleanup():
+            # a definition whose main step may have been skipped after a failure must not be referenced from
+            # [cleanup] (that combination is known finding KF-C08-1, property C08)
+            hidden = {nm for nm, ph in late_names if ph != 'cleanup'}
+            env['data'] = [n for n in env['data'] if n not in hidden]
+            env['progs'] = [n for n in env['progs'] if n not in hidden]
 
         setup += instrs('setup', 0, 3)
         act_stdin = None
         if r.chance(0.5):
             act_stdin = self.src(env, 2)
             setup.append(['stdin', act_stdin])
-        setup += instrs('setup2', 0, 1)
+        setup += instrs('setup', 0, 1)
         actor = r.weighted([('command', 11), ('file', 3), ('source', 3), ('null', 2)])
         act_code = 0 if r.chance(0.5) else r.randint(0, 255)
         if actor == 'command':
@@ -510,9 +571,26 @@ class Gen:
         else:
             act = ['null']
         before = instrs('before', 0, 2)
+        at_assert_start = (list(env['data']), list(env['progs']))
         assert_ = instrs('assert', 0, 2)
+        hide_for_cleanup()
         cleanup = instrs('cleanup', 0, 2)
-        case = {'setup': setup, 'act': act, 'before': before, 'assert': assert_, 'cleanup': cleanup}
+        # the assertions added to [assert] below (at any position) may use what is defined when [assert] starts
+        env['data'], env['progs'] = at_assert_start
+        # the order of the sections in the FILE is free (execution order is fixed): shuffle it, and sometimes split
+        # [setup] in two so that a definition stands after its use in file order but before it in execution order
+        blocks = ['setup', 'act', 'before', 'assert', 'cleanup']
+        split_at = None
+        if len(setup) >= 2 and r.chance(0.4):
+            split_at = r.randint(1, len(setup) - 1)
+            blocks = ['setup1', 'setup2', 'act', 'before', 'assert', 'cleanup']
+        if r.chance(0.6):
+            r.shuffle(blocks)
+            if split_at is not None and blocks.index('setup1') > blocks.index('setup2'):
+                i1, i2 = blocks.index('setup1'), blocks.index('setup2')
+                blocks[i1], blocks[i2] = blocks[i2], blocks[i1]
+        case = {'setup': setup, 'act': act, 'before': before, 'assert': assert_, 'cleanup': cleanup,
+                'layout': {'blocks': blocks, 'split_at': split_at, 'conf_last': r.chance(0.3)}}
         # assertions on the outcome of the action to check: expected values from a python-side prediction (used
         # only to make passing and failing assertions both frequent - never for a verdict)
         pred = predict_act(case)
@@ -544,6 +622,14 @@ class Gen:
                 if not r.chance(0.7):
                     t = r.choice(OUTS + [t + 'x', t[1:]])
                 asserts.append(['out-from', ch, p, t])
+        # programs as matchers: stdout / stderr [!] run PROGRAM ; exists FILE : [!] run PROGRAM
+        for _ in range(r.weighted([(0, 6), (1, 3), (2, 1)])):
+            code = 0 if r.chance(0.5) else r.randint(1, 255)
+            p = self.use_site(env, 1, code)
+            if r.chance(0.5):
+                asserts.append(['out-run', r.choice(['out', 'err']), r.chance(0.4), p])
+            else:
+                asserts.append(['file-run', r.chance(0.4), r.choice(['data.txt', 'data2.txt', 'sub']), p])
         for a in asserts:
             case['assert'].insert(r.randint(0, len(case['assert'])), a)
         return case
@@ -710,6 +796,13 @@ class Render:
             if simple:
                 return [lines[0] + ' -transformed-by ' + self.tr(s[2])], True
             return lines + ['    -transformed-by ' + self.tr(s[2])], False
+        if k == 'runt':
+            lines, simple = self.src(s[1])
+            pl = self.prog(s[3])
+            head = ' -transformed-by run ' + ('-ignore-exit-code ' if s[2] else '')
+            if simple:
+                return [lines[0] + head + pl[0]] + pl[1:], False
+            return lines + ['   ' + head + pl[0]] + pl[1:], False
         if k == 'prog':
             pl = self.prog(s[3])
             head = ('-stdout-from ' if s[1] == 'out' else '-stderr-from ') + ('-ignore-exit-code ' if s[2] else '')
@@ -770,6 +863,12 @@ class Render:
             fn = 'expected%d.txt' % len(self.expect_files)
             self.expect_files[fn] = i[1]
             return ['%s equals -contents-of -rel-home %s' % (k, fn)]
+        if k == 'out-run':
+            pl = self.prog(i[3])
+            return [('stdout' if i[1] == 'out' else 'stderr') + (' ! ' if i[2] else ' ') + 'run ' + pl[0]] + pl[1:]
+        if k == 'file-run':
+            pl = self.prog(i[3])
+            return ['exists -rel-home %s :%s run %s' % (i[2], ' !' if i[1] else '', pl[0])] + pl[1:]
         if k == 'exit-code-from':
             pl = self.prog(i[1])
             return ['exit-code -from ' + pl[0]] + pl[1:] + ['    == %d' % i[2]]
@@ -783,31 +882,43 @@ class Render:
 
     def case(self, case, rec):
         act = case['act']
-        lines = []
+        conf = []
         if act[0] == 'file':
-            lines += ['[conf]', 'actor = file ' + self.driver(act[1]).lstrip() +
-                      ''.join(' ' + self.arg(a) for a in act[2])]
+            conf = ['[conf]', 'actor = file ' + self.driver(act[1]).lstrip() +
+                    ''.join(' ' + self.arg(a) for a in act[2])]
         elif act[0] == 'source':
-            lines += ['[conf]', 'actor = source ' + self.driver(act[1]).lstrip() +
-                      ''.join(' ' + self.arg(a) for a in act[2])]
+            conf = ['[conf]', 'actor = source ' + self.driver(act[1]).lstrip() +
+                    ''.join(' ' + self.arg(a) for a in act[2])]
         elif act[0] == 'null':
-            lines += ['[conf]', 'actor = null']
-        lines += ['[setup]', 'dir d1/d2']
-        for i in case['setup']:
-            lines += self.instr(i)
-        lines.append('[act]')
+            conf = ['[conf]', 'actor = null']
+        layout = case.get('layout') or {'blocks': ['setup', 'act', 'before', 'assert', 'cleanup'], 'split_at': None,
+                                        'conf_last': False}
+        # instructions are rendered in EXECUTION order (the numbering of expected-files depends on it), then the
+        # sections are laid out in the order of the layout
+        setup_lines = [self.instr(i) for i in case['setup']]
+        phase_lines = {ph: [ln for i in case[ph] for ln in self.instr(i)] for ph in ('before', 'assert', 'cleanup')}
+        k = layout['split_at']
+        sections = {
+            'setup': ['[setup]', 'dir d1/d2'] + [ln for ls in setup_lines for ln in ls],
+            'setup1': ['[setup]', 'dir d1/d2'] + [ln for ls in setup_lines[:k or 0] for ln in ls],
+            'setup2': ['[setup]'] + [ln for ls in setup_lines[k or 0:] for ln in ls],
+            'before': ['[before-assert]'] + phase_lines['before'],
+            'assert': ['[assert]'] + phase_lines['assert'],
+            'cleanup': ['[cleanup]'] + phase_lines['cleanup'],
+        }
         if act[0] == 'command':
-            lines += self.prog(act[1])
+            sections['act'] = ['[act]'] + self.prog(act[1])
         elif act[0] == 'file':
-            lines.append(act[3] + ''.join(' ' + self.arg(a) for a in act[4]))
+            sections['act'] = ['[act]', act[3] + ''.join(' ' + self.arg(a) for a in act[4])]
         elif act[0] == 'source':
-            lines += self.real(source_text(act)).split('\n')
+            sections['act'] = ['[act]'] + self.real(source_text(act)).split('\n')
         else:
-            lines.append('whatever is here')
-        for ph, hdr in (('before', '[before-assert]'), ('assert', '[assert]'), ('cleanup', '[cleanup]')):
-            lines.append(hdr)
-            for i in case[ph]:
-                lines += self.instr(i)
+            sections['act'] = ['[act]', 'whatever is here']
+        lines = [] if layout['conf_last'] else list(conf)
+        for b in layout['blocks']:
+            lines += sections[b]
+        if layout['conf_last']:
+            lines += conf
         return '\n'.join(lines) + '\n'
 
 
@@ -1044,6 +1155,8 @@ class Terms:
             return '(SFile %s)' % ctext(files[s[1]])
         if k == 'trans':
             return '(STrans %s %s)' % (self.src(s[1], files), self.tr(s[2]))
+        if k == 'runt':
+            return '(SRunT %s %s %s)' % (self.src(s[1], files), cbool(s[2]), self.prog(s[3], files))
         return '(SProg %s %s %s)' % ('COut' if s[1] == 'out' else 'CErr', cbool(s[2]), self.prog(s[3], files))
 
     def srcs(self, l, files):
@@ -1089,6 +1202,10 @@ class Terms:
             return '(IStdout %s)' % ctext(i[1])
         if k == 'stderr':
             return '(IStderr %s)' % ctext(i[1])
+        if k == 'out-run':
+            return '(IOutRun %s %s %s)' % ('COut' if i[1] == 'out' else 'CErr', cbool(i[2]), self.prog(i[3], files))
+        if k == 'file-run':
+            return '(IFileRun %s %s %s)' % (cbool(i[1]), ctext('{HOME}/' + i[2]), self.prog(i[3], files))
         if k == 'exit-code-from':
             return '(IExitCodeFrom %s %s)' % (self.prog(i[1], files), cN(i[2]))
         if k == 'out-from':
@@ -1199,6 +1316,55 @@ def chain_len(p, defs, depth=0):
     return contributes + chain_len(q, defs, depth + 1)
 
 
+def late_definitions(case):
+    out = set()
+    seen_other = False
+    for i in case['setup']:
+        if i[0] == 'def':
+            if seen_other:
+                out.add(i[1])
+        else:
+            seen_other = True
+    for ph in ('before', 'assert', 'cleanup'):
+        out |= {i[1] for i in case[ph] if i[0] == 'def'}
+    return out
+
+
+def names_used(p):
+    """symbol names a program (as written at its use site) mentions"""
+    out = set()
+
+    def frs(fr):
+        for f in fr:
+            if f[0] == 's':
+                out.add(f[1])
+
+    def src(s):
+        if s[0] == 'str':
+            frs(s[1])
+        elif s[0] == 'trans':
+            src(s[1])
+        elif s[0] == 'prog':
+            out.update(names_used(s[3]))
+        elif s[0] == 'runt':
+            src(s[1])
+            out.update(names_used(s[3]))
+
+    if p[0] == 'ref':
+        out.add(p[1])
+    else:
+        if p[1][0] in ('sys', 'shell'):
+            frs(p[1][1])
+    for a in p[2]:
+        if a[0] == 'sym':
+            out.add(a[1])
+        else:
+            frs(a[1])
+    for s_ in p[3]:
+        src(s_)
+    return out
+
+
 def shell_chain_with_args(p, defs, depth=0, seen_args=False):
     """(chain depth, True) if the program is a reference that ends, through `depth` program symbols, in a shell
     command and arguments are added on the way (the class of seeded mutant C10-m4); else None"""
@@ -1220,6 +1386,9 @@ def programs_of(case, with_defs=False):
             from_prog(s[3])
         elif s[0] == 'trans':
             from_src(s[1])
+        elif s[0] == 'runt':
+            from_src(s[1])
+            from_prog(s[3])
 
     def from_prog(p):
         out.append(p)
@@ -1229,6 +1398,8 @@ def programs_of(case, with_defs=False):
     for ph in ('setup', 'before', 'assert', 'cleanup'):
         for i in case[ph]:
             if i[0] == 'run':
+                from_prog(i[3])
+            elif i[0] in ('out-run', 'file-run'):
                 from_prog(i[3])
             elif i[0] == 'exit-code-from':
                 from_prog(i[1])
@@ -1262,6 +1433,20 @@ def features(case, obs):
         d = shell_chain_with_args(p, defs)
         if d:
             f.add('shell-command symbol referenced with additional arguments, chain depth %d' % min(d, 4))
+    late = late_definitions(case)
+    if late:
+        f.add('definition in the middle of a phase (after a non-definition, or outside [setup])')
+        used = set()
+        for p in progs:
+            used |= names_used(p)
+        if used & late:
+            f.add('symbol defined in the middle of a phase used by a started program')
+    lay = case.get('layout')
+    if lay and lay['blocks'] not in (['setup', 'act', 'before', 'assert', 'cleanup'],
+                                     ['setup1', 'setup2', 'act', 'before', 'assert', 'cleanup']):
+        f.add('sections in a file order different from the execution order')
+    if lay and lay['split_at'] is not None:
+        f.add('[setup] split in two sections')
     if mixed_stdin_sequence(case):
         f.add('stdin: buffered part before descriptor-written part (class of FIX-C10-1)')
     return f
@@ -1270,7 +1455,7 @@ def features(case, obs):
 def is_nontrivial(case, obs):
     f = features(case, obs)
     return ('chain>=2' in f or 'nonzero-exit' in f or case['act'][0] != 'command'
-            or any(x.startswith('stdin: buffered') for x in f))
+            or any(x.startswith('stdin: buffered') or x.startswith('symbol defined in the middle') for x in f))
 
 
 def sweep_cases(codes, rng):
@@ -1322,9 +1507,12 @@ def run(ctx, res):
     cases = load_corpus() + sweep_cases(codes, ctx.rng) + generate(ctx, n)
     res.rule = ('generated test cases: 0-4 data symbols (strings, lists, paths; weird texts: empty, spaces, quotes, '
                 'option-like and reserved words), 0-2 chains of 1-4 program definitions each adding arguments / -stdin / '
-                '-transformed-by, run / $ / % / file..=-stdout-from.. / cd in every phase, stdin = SRC, the four actors, '
+                '-transformed-by, further def string / list / program in the middle of any phase (used by later '
+                'instructions), sections in shuffled file order and [setup] split in two, '
+                'run / $ / % / file..=-stdout-from.. / cd in every phase, stdin = SRC, the four actors, '
                 'exit codes 0..255 (plus a sweep: two fixed small cases per exit code - all 256 in the thorough tier), '
-                'assertions on exit-code / stdout / stderr of the action to check and -from PROGRAM.  non-trivial := a started program goes '
+                'assertions on exit-code / stdout / stderr of the action to check and -from PROGRAM; programs as '
+                'transformer (SRC -transformed-by run P), text matcher (stdout run P) and file matcher (exists F : run P).  non-trivial := a started program goes '
                 'through >= 2 contributing definitions, or some process exits non-zero, or the actor is not the '
                 'command line actor; distinct := distinct case text')
     observed, cb, pb = evaluate(ctx, res, cases)
